@@ -308,16 +308,19 @@ PROPS = {
                       "protocol.EncodeSlicePointer/PutData, server typePools and handleRequest's Get/Put calls.",
     },
     "C15": {
+        "generated": ["goplugins2v"],
         "rule": "exhaustive matrix: 6 stage configurations (authentication alone, + accept veto, + post-read reject, + pre-call "
                 "reject, none, post-read + pre-call) x ingress {native, gateway, JSON-RPC} x token {missing, wrong, right} x "
                 "{heartbeat, one-way} flag combinations x target {reflected method, registered function, unknown service}; plus every "
                 "malformed gateway header and the malformed JSON-RPC method; one fresh connection per request; distinct = distinct "
                 "model-input line (all are non-trivial)",
-        "theorems": ["C15_rejected_never_reaches_a_handler", "C15_native_auth_failure_closes", "C15_heartbeat_never_reaches_a_handler"],
+        "theorems": ["C15_rejected_never_reaches_a_handler", "C15_any_rejecting_plugin_wherever_registered", "C15_rejecting_stages_stop_at_the_first_rejection", "C15_native_auth_failure_closes", "C15_heartbeat_never_reaches_a_handler"],
         "assumptions": ["a post-read plugin's rejection is a generic error (the rate limiter's ErrReqReachLimit answers and continues)",
                         "the stock plugins under serverplugin/ are exercised through the same stage interfaces, not modelled one by one",
                         "net/http, cmux and httprouter are externals"],
-        "trusted": ["harness/cmd/vh/c15.go: a real server on loopback TCP (port multiplexer, HTTP gateway, JSON-RPC endpoint running), "
+        "trusted": ["tools/goplugins2v (go/ast translator: how each pluginContainer.Do<Stage> loop combines its plugins' verdicts, "
+                    "regenerated into Server/PluginsGen.v on every run)",
+                    "harness/cmd/vh/c15.go: a real server on loopback TCP (port multiplexer, HTTP gateway, JSON-RPC endpoint running), "
                     "raw TCP peers over refcodec, net/http clients with keep-alives disabled (one fresh connection per request)"],
         "level_text": "Theorem over the whole (finite) space of ingresses, stage configurations, tokens and flags, and for every service "
                       "table and handler: a rejected connection or request runs no handler and yields no result; a native connection "
@@ -445,7 +448,7 @@ PROPS = {
                 "weight-metadata grammar; distinct = distinct model-input line; non-trivial = at least 2 servers and a "
                 "selection run covering a full window",
         "theorems": ["C12_round_robin_exact", "C12_round_robin_after_any_history", "C12_weighted_ring_counts",
-                     "C12_weighted_window_proportional", "C12_update_is_fresh_build"],
+                     "C12_weighted_window_proportional", "C12_update_is_fresh_build", "C12_equal_weights_is_round_robin"],
         "assumptions": ["Go map iteration order is an input (slice order read through client.VerifSelectorOrder)",
                         "url.ParseQuery/strconv.Atoi results are inputs to the model",
                         "weights are unbounded integers in the model; sums beyond the int range / ring allocations that "
